@@ -62,9 +62,38 @@ pub fn roundtrip(text: &str) -> Result<bool, (String, String, String)> {
     Ok(true)
 }
 
-fn check_tape(tape: &[u8], gates: &Gates, stats: &mut Stats, counting: bool) -> Result<(), Failure> {
+/// second observation point: `ironplcc echo` output fed back to `ironplcc echo`
+fn echo_twice(text: &str) -> Result<(), (String, String)> {
+    let dir = crate::drive::Scratch::new("c10");
+    let a = dir.write("a.st", text.as_bytes()).to_string_lossy().to_string();
+    let o1 = crate::drive::run_cli(&["echo".to_string(), a], None);
+    if o1.timed_out {
+        return Ok(());
+    }
+    if o1.status != Some(0) {
+        return Err(("echo-failed".into(), format!("`ironplcc echo` exits {:?} on a text the parser accepts", o1.status)));
+    }
+    let b = dir.write("b.st", o1.stdout.as_bytes()).to_string_lossy().to_string();
+    let o2 = crate::drive::run_cli(&["echo".to_string(), b], None);
+    if o2.timed_out {
+        return Ok(());
+    }
+    if o2.status != Some(0) {
+        return Err(("echo-output-rejected".into(), format!("`ironplcc echo` exits {:?} on its own output", o2.status)));
+    }
+    if o1.stdout != o2.stdout {
+        return Err(("echo-not-a-fixed-point".into(), "echo of the echo output differs from the echo output".into()));
+    }
+    Ok(())
+}
+
+fn check_tape(tape: &[u8], gates: &Gates, stats: &mut Stats, counting: bool, cli_budget: &std::sync::atomic::AtomicI64) -> Result<(), Failure> {
     let case = build(tape, gates, &SpellOpts::canonical(), 3);
     let r = roundtrip(&case.text);
+    if counting && matches!(r, Ok(true)) && cli_budget.fetch_sub(1, std::sync::atomic::Ordering::Relaxed) > 0 {
+        stats.class("cli.echo-twice");
+        echo_twice(&case.text).map_err(|(k, d)| Failure::new("echo", &k, d, json!({"text": case.text})))?;
+    }
     if counting {
         let accepted = matches!(r, Ok(true) | Err(_));
         stats.case(accepted && case.lexemes.len() >= 5, hash_str(&case.text));
@@ -91,16 +120,17 @@ pub fn run(ctx: &Ctx) -> i32 {
         ctx.tier,
         ctx.seed,
         "exploration",
-        "programs of the C01 generator (all productions whose gates are on) in canonical spelling -> lib = parse(text); t1 = write_to_string(lib) must be Ok, parse(t1) must be Ok and == lib (plus case-sensitive identifier spellings) and write_to_string(parse(t1)) == t1. Non-trivial: accepted by the parser and >= 5 lexemes; distinct by text hash.",
+        "programs of the C01 generator (all productions whose gates are on) in canonical spelling -> lib = parse(text); t1 = write_to_string(lib) must be Ok, parse(t1) must be Ok and == lib (plus case-sensitive identifier spellings) and write_to_string(parse(t1)) == t1; for a sample `ironplcc echo` of the echo output must succeed and reproduce it. Non-trivial: accepted by the parser and >= 5 lexemes; distinct by text hash.",
     );
     let mut gates = ctx.gates_for("C10");
     // C10-specific exclusions live in known_findings.json under property C10 like all others
     let _ = &mut gates;
     let off = gates.off_list();
     let cases = ctx.tier.pick(400_000, 5_000_000);
+    let cli_budget = std::sync::atomic::AtomicI64::new(ctx.tier.pick(300, 6000));
     let out = run_tapes("C10", ctx.seed, ctx.threads, cases, 1200, |tape, stats, counting| {
         let g = Gates::with_off(off.clone());
-        check_tape(tape, &g, stats, counting)
+        check_tape(tape, &g, stats, counting, &cli_budget)
     });
     rep.add(out);
     rep.replay_witnesses(&ctx.findings, &|w| witness(w));
@@ -122,7 +152,8 @@ pub fn witness(w: &Value) -> Result<(), String> {
 
 pub fn replay(ctx: &Ctx, v: &Value) -> i32 {
     let text = v["inputs"]["text"].as_str().unwrap_or("");
-    match roundtrip(text) {
+    let r = if v["check"] == "echo" { echo_twice(text).map(|_| true).map_err(|(k, d)| (k, d, String::new())) } else { roundtrip(text) };
+    match r {
         Ok(_) => {
             println!("replay: property holds on this input");
             0
